@@ -140,6 +140,9 @@ def run(P, R, tier):
     printfree_rule(P, R)
     savedfree_rule(P, R)
     printwrites_rule(P, R)
+    # the selected-output file of a block equals its string only if every punching loop routes the file stream per block
+    from .c04 import _Renamed
+    C05.stream_rule(P, _Renamed(R, "C05.stream", "C09.stream"))
 
 
 def check_base(P, R, base, ost, on):
